@@ -837,8 +837,10 @@ class TE:
             return f(lv, rv)
         if isinstance(op, ast.BitOr) and isinstance(l, dict) and isinstance(r, dict):
             return {**l, **r}
-        if isinstance(op, ast.BitOr) and isinstance(l, (set, frozenset)) and isinstance(r, (set, frozenset)):
-            return l | r
+        if isinstance(l, (set, frozenset)) and isinstance(r, (set, frozenset)) and isinstance(op, (ast.BitOr, ast.BitAnd, ast.Sub, ast.BitXor)):
+            return {ast.BitOr: lambda a, b: a | b, ast.BitAnd: lambda a, b: a & b, ast.Sub: lambda a, b: a - b, ast.BitXor: lambda a, b: a ^ b}[type(op)](l, r)
+        if isinstance(op, ast.Mult) and isinstance(l, (list, tuple, str, bytes)) and isinstance(r, int):
+            return l * r
         if isinstance(op, ast.BitOr) and isinstance(l, (TypeRef, ClassRef)):
             return TypeRef("typing.Union", (l, r))
         raise AnalysisError(f"{mod}:{e.lineno} binop {type(op).__name__} on {l!r},{r!r}")
